@@ -1,8 +1,11 @@
 package sim
 
 import (
+	"fmt"
 	"strings"
 
+	"verif/refcbor"
+	"verif/refcose"
 	"verif/tape"
 )
 
@@ -87,7 +90,13 @@ func scenarioC05(r *Run) {
 	fm := GenFaultMix(t)
 	ent := NewEntropy(uint64(t.U32("entropy.seed")))
 	to := TrafficOpts{Spec: SpecOpts{MaxExtra: 4, MaxSigner: 3, Cheap: true}, CsigDepth: 2, Abbrev: true, ForeignPct: 40, Detach: true}
-	b, victim := r.damagedInput(t, fm, ent, to, 2)
+	var b []byte
+	var victim *Wire
+	if t.Bool(1, 15, "c05.twins") {
+		b, victim = r.c05Twins(t, ent)
+	} else {
+		b, victim = r.damagedInput(t, fm, ent, to, 2)
+	}
 	if victim == nil {
 		r.Outcome("no-traffic")
 		return
@@ -149,4 +158,41 @@ func strip55799(b []byte) ([]byte, int) {
 		return b, 0
 	}
 	return m.Bytes(), n
+}
+
+// c05Twins: a COSE_Sign whose signers share byte-identical protected buckets
+// (same algorithm, no kid - common in practice), one of which breaks a
+// cross-bucket rule with its UNPROTECTED side only: IV in the shared protected
+// bucket and Partial IV in its own unprotected one (or the other way round).
+// Whatever a decoder re-uses between siblings, each layer is judged whole.
+func (r *Run) c05Twins(t *tape.Tape, ent *Entropy) ([]byte, *Wire) {
+	n := 2 + t.Choose(3, "c05.twins.n")
+	k := pickCheapKey(t)
+	first, second := int64(refcose.LIV), int64(refcose.LPartialIV)
+	if t.Bool(1, 2, "c05.twins.swap") {
+		first, second = second, first
+	}
+	shared := Bucket{{refcbor.Uint(refcose.LAlg), refcbor.Int(k.Alg)}, {refcbor.Int(first), refcbor.Bstr(t.Bytes(1+t.Choose(12, "c05.twins.ivn"), "c05.twins.iv"))}}
+	spec := &MsgSpec{Kind: refcose.KSignTagged, Payload: genPayload(t, false), External: nil}
+	spec.Layer = genLayer(t, LayerOpts{MaxExtra: 1})
+	bad := t.Choose(n, "c05.twins.bad")
+	for i := 0; i < n; i++ {
+		sg := &SignerSpec{Key: k}
+		sg.Layer.Prot = shared.clone()
+		if t.Bool(1, 2, "c05.twins.kid") {
+			sg.Layer.Unprot = append(sg.Layer.Unprot, KV{refcbor.Uint(refcose.LKid), refcbor.Bstr([]byte{byte(i)})})
+		}
+		if i == bad {
+			sg.Layer.Unprot = append(sg.Layer.Unprot, KV{refcbor.Int(second), refcbor.Bstr(t.Bytes(1+t.Choose(6, "c05.twins.pn"), "c05.twins.p"))})
+		}
+		spec.Signers = append(spec.Signers, sg)
+	}
+	w := r.ForeignWire(t, spec, Knobs{}, ent, false, 0, false)
+	if w == nil {
+		return nil, nil
+	}
+	w.Desc = fmt.Sprintf("COSE_Sign with %d signers sharing one protected bucket; signer %d adds label %d to its unprotected bucket", n, bad, second)
+	r.Op("ISSUE", "%s", w.Desc)
+	r.Fired("peer.sibling-cross-bucket-conflict")
+	return w.B, w
 }
